@@ -160,6 +160,34 @@ def _char_fn():
     return f
 
 
+def _fmt_fn():
+    vecs = [0, 7, -1, 10, 99, 100, -100, 4294967296, -9223372036854775808, 1500000000]
+    texts = ["v=%d;" % v for v in vecs]
+
+    def f(i: int, v: int) -> bool:
+        """
+        post: _
+        """
+        if not (0 <= i < len(vecs)) or v != vecs[i]:
+            return True
+        return "v={};".format(v) == texts[i] and "v={0:d};".format(v) == texts[i] and str(v) == texts[i][2:-1]
+    return f
+
+
+def _fmt_inverse_fn():
+    def f(v: int) -> bool:
+        """
+        post: _
+        """
+        if not (-100 < v < 1000):
+            return True
+        t = "{}".format(v)
+        a = -v if v < 0 else v
+        digits = 1 if a < 10 else 2 if a < 100 else 3
+        return len(t) == digits + (1 if v < 0 else 0) and (t[0] == "-") == (v < 0)
+    return f
+
+
 def check_models(failures, info):
     from kv import worker
     fns = []
@@ -167,6 +195,8 @@ def check_models(failures, info):
         fns.append(("vectors " + fmt, _mk_pack_fn(fmt)))
         fns.append(("symbolic round trip " + fmt, _mk_sym_roundtrip(fmt)))
     fns.append(("char/bool", _char_fn()))
+    fns.append(("int format vectors", _fmt_fn()))
+    fns.append(("int format inverse", _fmt_inverse_fn()))
     info["models"] = []
     for name, fn in fns:
         r = worker.analyze(fn, 60)
